@@ -41,6 +41,9 @@ type encCase struct {
 	ByPointer  bool  `json:"by_pointer"` // ReadFile's out argument is a *T instead of a T
 	// Reader: how the file is presented to ReadFile (see makeReader).
 	Reader int `json:"reader,omitempty"`
+	// Repeat > 1: every record is written Repeat times in a row (thousands of
+	// identical rows: blocks that compress by more than an order of magnitude).
+	Repeat int `json:"repeat,omitempty"`
 }
 
 // shortReader delivers at most N bytes per Read call (a network stream, a pipe):
@@ -173,7 +176,14 @@ func encodeCase(c encCase) (file []byte, in []spec.AbsVal, err error) {
 	}
 	for i, r := range c.Records {
 		v := spec.New(c.Type, r)
-		in = append(in, spec.Abs(c.Type, false, v.Elem()))
+		a := spec.Abs(c.Type, false, v.Elem())
+		for rep := 1; rep < c.Repeat; rep++ {
+			in = append(in, a)
+			if err := enc.Encode(v.UnsafePointer()); err != nil {
+				return nil, nil, fmt.Errorf("Encode record %d (repetition %d): %w", i, rep, err)
+			}
+		}
+		in = append(in, a)
 		if err := enc.Encode(v.UnsafePointer()); err != nil {
 			return nil, nil, fmt.Errorf("Encode record %d: %w", i, err)
 		}
@@ -220,6 +230,22 @@ func drawEncCase(t *rapid.T) encCase {
 	}
 	c.ByPointer = rapid.Bool().Draw(t, "byPointer")
 	c.Reader = []int{0, 0, 1, 2, 4, 8, 100, 4195, 50, 51}[gen.Uniform(t, "reader", 10)]
+	return c
+}
+
+// drawRepetitiveCase: a few records, each written hundreds or thousands of times,
+// in large blocks: data that compresses by more than an order of magnitude.
+func drawRepetitiveCase(t *rapid.T) encCase {
+	var c encCase
+	c.Type = gen.StructType(t, gen.TypeOpts{MaxDepth: 2, MaxFields: 3}, 1)
+	c.GoType = c.Type.GoString()
+	n := gen.UniformRange(t, "nrecords", 1, 2)
+	c.Records = gen.Records(t, c.Type, n, gen.ValueOpts{MaxElems: 3})
+	c.FlushAfter = make([]int, n)
+	c.Compression = []string{"snappy", "snappy", "deflate"}[gen.Uniform(t, "compression", 3)]
+	c.Repeat = []int{300, 1500, 5000}[gen.Uniform(t, "repeat", 3)]
+	c.BlockSize = []int{1 << 20, 30000, 200000}[gen.Uniform(t, "repBlock", 3)]
+	c.Reader = []int{0, 51, 4195}[gen.Uniform(t, "repReader", 3)]
 	return c
 }
 
